@@ -56,8 +56,9 @@ func DecodeTuple(tuple *HeapTupleData, columns []Column) map[string]interface{} 
 		
 		// Special handling for varlena: short varlena uses 1-byte alignment
 		if col.Len == -1 && offset < len(tuple.Data) {
-			// Try 1-byte alignment first to check for short varlena
-			if isShortVarlena(tuple.Data[offset:]) {
+			// PostgreSQL's att_align_pointer: a non-zero byte here is a 1-byte header (short value or
+			// external pointer, neither is aligned); a zero byte is padding before a 4-byte header
+			if tuple.Data[offset] != 0 {
 				colAlign = 1
 			}
 		}
